@@ -153,6 +153,7 @@ pub fn gen_srv_case(rng: &mut Rng, profile: Profile, prop: &'static str) -> SrvC
         kill_at: None,
         kill_after_start: rng.chance(1, 3),
         fds_from_zero: rng.chance(1, 6),
+        kill_first: rng.chance(1, 2),
     };
     let mut st = Stats::default();
     let mut flags = flags_for(prop, profile);
@@ -602,6 +603,11 @@ fn shrink_srv(case: &SrvCase) -> Vec<SrvCase> {
         c.fds_from_zero = false;
         out.push(c);
     }
+    if case.kill_first {
+        let mut c = case.clone();
+        c.kill_first = false;
+        out.push(c);
+    }
     out
 }
 
@@ -892,6 +898,7 @@ fn full_house(rng: &mut Rng) -> SrvCase {
         kill_at: None,
         kill_after_start: rng.chance(1, 3),
         fds_from_zero: rng.chance(1, 6),
+        kill_first: rng.chance(1, 2),
     };
     let n = *rng.pick(&[10usize, 10, 10, 9, 8]);
     for c in 0..n {
